@@ -1,84 +1,7 @@
-(* C03/C04/C13: the hand-written value operations and operator dispatch of Lang.v ARE the reading of the match tables regenerated from interpreter.rs and value.rs (Gen/GenInterp.v) *)
+(* C03/C04/C11: the operator dispatch of the model is the reading of the arms of fn unary / fn binary regenerated from interpreter.rs (Gen/GenEvalArms.v), over the value operations of InterpOps.v *)
 From Flocq Require Import Core BinarySingleNaN.
 Require Import ZArith NArith Bool List Arith Lia. Import ListNotations.
-Require Import F64 Dec Types Generic Lang GenInterp.
-
-(* ---- reading the generated tables the way Rust reads a match: the first arm, in source order, whose pattern fits ---- *)
-Definition op_eqb (a b:op) : bool := match a, b with
-  | Plus, Plus | Minus, Minus | Multiply, Multiply | Divide, Divide | Greater, Greater | GreaterEqual, GreaterEqual | Less, Less | LessEqual, LessEqual | Equal, Equal
-  | NotEqual, NotEqual | And, And | Or, Or | Xor, Xor | Not, Not | Div, Div | Mod, Mod | TernaryCondition, TernaryCondition => true | _, _ => false end.
-Definition kind_eqb (a b:gkind) : bool := match a, b with KBool, KBool | KStr, KStr | KNum, KNum | KArr, KArr => true | _, _ => false end.
-Definition kind_of (v:value) : gkind := match v with VBool _ => KBool | VStr _ => KStr | VNum _ => KNum | VArr _ => KArr end.
-Definition pat_matches (p:gpat) (r:res value) : bool :=
-  match p, r with POk, Ok _ => true | PUndef, Er (Undefined _) => true | PErr, Er _ => true | PAny, _ => true | _, _ => false end.
-Definition op_matches (po:option op) (o:op) : bool := match po with None => true | Some o' => op_eqb o' o end.
-Fixpoint first_arm (arms:list (option op * gpat * gact)) (o:op) (r:res value) : option gact :=
-  match arms with [] => None | (po, p, a) :: t => if op_matches po o && pat_matches p r then Some a else first_arm t o r end.
-Fixpoint kinds_arm {A} (rows:list (gkind * gkind * A)) (a b:value) : option A :=
-  match rows with [] => None | (ka, kb, r) :: t => if kind_eqb ka (kind_of a) && kind_eqb kb (kind_of b) then Some r else kinds_arm t a b end.
-Fixpoint okinds_arm (rows:list (option (gkind * gkind) * gact)) (a b:value) : option gact :=
-  match rows with [] => None
-  | (None, r) :: _ => Some r
-  | (Some (ka, kb), r) :: t => if kind_eqb ka (kind_of a) && kind_eqb kb (kind_of b) then Some r else okinds_arm t a b end.
-
-(* ---- glossary: what each right-hand-side text means, in terms of the f64 / list operations of the model. This glossary is the trusted part of the tie. ---- *)
-Definition res_sem (r:gact) (a b:value) : option (res value) :=
-  match r, a, b with
-  | RStrConcat, VStr x, VStr y => Some (Ok (VStr (x ++ y)))
-  | RArrConcat, VArr x, VArr y => Some (Ok (VArr (x ++ y)))
-  | RNumAdd, VNum x, VNum y => Some (Ok (VNum (fadd x y)))
-  | RNumSub, VNum x, VNum y => Some (Ok (VNum (fsub x y)))
-  | RNumMul, VNum x, VNum y => Some (Ok (VNum (fmul x y)))
-  | RNumDiv, VNum x, VNum y => Some (Ok (VNum (fdiv x y)))
-  | RNumRem, VNum x, VNum y => Some (Ok (VNum (frem x y)))
-  | RNumDivTrunc, VNum x, VNum y => Some (Ok (VNum (ftrunc (fdiv x y))))
-  | RBoolXor, VBool x, VBool y => Some (Ok (VBool (xorb x y)))
-  | _, _, _ => None end.
-(* a Value operator impl: the first arm whose kinds fit, else the catch-all error *)
-Definition value_op (o:op) (a b:value) : option (res value) :=
-  match find (fun row => op_eqb (fst (fst row)) o) gen_value_ops with
-  | Some (_, rows, d) => match kinds_arm rows a b with Some r => res_sem r a b | None => Some (Er (InvalidBinary d)) end
-  | None => None end.
-Definition value_neg (v:value) : option (res value) :=
-  match find (fun row => kind_eqb (fst row) (kind_of v)) gen_value_neg, v with
-  | Some (_, RNumNeg), VNum x => Some (Ok (VNum (fneg x)))
-  | Some _, _ => None
-  | None, _ => Some (Er (InvalidUnary Minus)) end.
-Definition tab_ordinal (v:value) : option N := option_map snd (find (fun row => kind_eqb (fst row) (kind_of v)) gen_ordinal).
-Definition lex := (fix lex (l1 l2:list value) {struct l1} : comparison :=
-         match l1, l2 with [], [] => Eq | [], _ :: _ => Lt | _ :: _, [] => Gt
-         | p :: t1, q :: t2 => match vcmp p q with Eq => lex t1 t2 | c => c end end).
-Definition alleq := (fix alleq (l1 l2:list value) {struct l1} : bool := match l1, l2 with [], [] => true | p::t1, q::t2 => veq p q && alleq t1 t2 | _, _ => false end).
-(* Ord::cmp: the arm gives an Option<Ordering>; None falls back on the ordinals *)
-Definition cmp_arm_sem (r:gact) (a b:value) : option (option comparison) :=
-  match r, a, b with
-  | CNative, VBool x, VBool y => Some (Some (bcmp x y))
-  | CNative, VStr x, VStr y => Some (Some (scmp x y))
-  | CNative, VNum x, VNum y => Some (fcmp x y)
-  | CNative, VArr x, VArr y => Some (Some (lex x y))
-  | CStrAsNumLeft, VStr x, VNum y => Some (match parse_f64 x with Some fx => fcmp fx y | None => None end)
-  | CStrAsNumRight, VNum x, VStr y => Some (match parse_f64 y with Some fy => fcmp x fy | None => None end)
-  | CNone, _, _ => Some None
-  | _, _, _ => None end.
-Definition tab_cmp (a b:value) : option comparison :=
-  match okinds_arm gen_cmp_arms a b, tab_ordinal a, tab_ordinal b with
-  | Some r, Some oa, Some ob =>
-      match cmp_arm_sem r a b with
-      | Some (Some c) => Some c
-      | Some None => if gen_cmp_falls_back_on_ordinal then Some (N.compare oa ob) else None
-      | None => None end
-  | _, _, _ => None end.
-Definition eq_arm_sem (r:gact) (a b:value) : option bool :=
-  match r, a, b with
-  | ENative, VBool x, VBool y => Some (Bool.eqb x y)
-  | ENative, VStr x, VStr y => Some (match scmp x y with Eq => true | _ => false end)
-  | ENative, VNum x, VNum y => Some (feq x y)
-  | ENative, VArr x, VArr y => Some (alleq x y)
-  | EBoolAsNumLeft, VBool x, VNum y => Some (feq (of_bool x) y)
-  | EBoolAsNumRight, VNum x, VBool y => Some (feq x (of_bool y))
-  | EByCmp, _, _ => Some (match vcmp a b with Eq => true | _ => false end)
-  | _, _, _ => None end.
-Definition tab_eq (a b:value) : option bool := match okinds_arm gen_eq_arms a b with Some r => eq_arm_sem r a b | None => None end.
+Require Import F64 Dec Types Generic Lang InterpTypes InterpRead GenValueOps InterpOps GenEvalArms.
 
 Definition boolean_fn (full:bool) (lv:value) (rr:res value) : res value := if Bool.eqb (as_bool lv) full then boolr rr else Ok (VBool (as_bool lv)).
 Definition inner_sem (a:gact) (o:op) (lv:value) (rr:res value) : option (res value) :=
@@ -118,10 +41,6 @@ Definition tab_unary (o:op) (r:res value) : option (res value) :=
   | _, _ => None end.
 
 (* ---- the hand-written model IS the reading of the tables regenerated from the source ---- *)
-Theorem vcmp_is_the_table : forall a b, Some (vcmp a b) = tab_cmp a b.
-Proof. intros a b. destruct a, b; try reflexivity; cbn; try (destruct (fcmp _ _) as [[]|]; reflexivity); try (destruct (parse_f64 _); [destruct (fcmp _ _) as [[]|]|]; reflexivity). Qed.
-Theorem veq_is_the_table : forall a b, Some (veq a b) = tab_eq a b.
-Proof. intros a b. destruct a, b; reflexivity. Qed.
 Theorem binop_is_the_table : forall o lv rv, Some (binop o lv rv) = tab_inner o lv (Ok rv).
 Proof. intros o lv rv. destruct o; try reflexivity; destruct lv, rv; reflexivity. Qed.
 Theorem un_combine_is_the_table : forall o r, Some (un_combine o r) = tab_unary o r.
@@ -134,5 +53,5 @@ Proof.
     + destruct o; destruct er; try reflexivity; cbn; unfold boolean_fn, Generic.boolr; destruct (as_bool lv); reflexivity.
   - destruct el; destruct o; try reflexivity; destruct rr as [rv|[]]; reflexivity.
 Qed.
-Theorem helpers_as_modelled : gen_helpers_as_modelled = true /\ gen_ternary_as_modelled = true /\ gen_boolean_as_modelled = true /\ gen_get_values_as_modelled = true /\ gen_cmp_falls_back_on_ordinal = true.
+Theorem helpers_as_modelled : gen_helpers_as_modelled = true /\ gen_ternary_as_modelled = true /\ gen_boolean_as_modelled = true /\ gen_get_values_as_modelled = true.
 Proof. repeat split; reflexivity. Qed.
